@@ -150,7 +150,7 @@ func ruleR05b(h *H) {
 		}
 		n++
 		h.Fn(ir.FuncName(s.Fn))
-		name := "metadata Store retry in " + ir.FuncName(s.Fn)
+		name := "metadata Store retry in the StatusResource.UpdateShardMetadata implementation"
 		used := false
 		if v := s.Call.Value(); v != nil && v.Referrers() != nil {
 			for _, r := range *v.Referrers() {
